@@ -693,6 +693,75 @@ def _coalesce_copies(fn):
                 break
 
 
+def _hoist_common_tail_return(fn):
+    """`if C: A; return E  else: B; return E`  as the last statement of a block  is  `if C: A  else: B` followed by `return E`
+    (E is evaluated after A / B either way)."""
+    def f(stmts):
+        if stmts and isinstance(stmts[-1], ast.If):
+            s = stmts[-1]
+            if s.body and s.orelse and isinstance(s.body[-1], ast.Return) and isinstance(s.orelse[-1], ast.Return) and \
+                    ast.dump(s.body[-1]) == ast.dump(s.orelse[-1]) and (len(s.body) > 1 or len(s.orelse) > 1):
+                ret = s.body.pop()
+                s.orelse.pop()
+                if not s.body:
+                    s.test = ast.UnaryOp(op=ast.Not(), operand=s.test)
+                    s.body, s.orelse = s.orelse, []
+                stmts.append(ret)
+        return stmts
+
+    _rewrite_bodies(fn, f)
+
+
+def _coalesce_branch_copies(fn):
+    """`if C: v = p  else: v = E(p)`  (v new, p not read afterwards)  is  `if not C: p = E(p)`: the fresh name a careful
+    refactoring introduces instead of rebinding a parameter is that parameter from there on."""
+    params = {a.arg for a in fn.args.args + fn.args.kwonlyargs}
+    changed = True
+    while changed:
+        changed = False
+        for owner, fld in [(o, f_) for n in ast.walk(fn) for o, f_ in _bodies(n)]:
+            stmts = getattr(owner, fld)
+            if owner is not fn:
+                continue   # top level of the function only: "afterwards" is then simply the rest of the body
+            for j, s in enumerate(stmts):
+                if not (isinstance(s, ast.If) and s.body and s.orelse):
+                    continue
+                for copy_side, other in ((s.body, s.orelse), (s.orelse, s.body)):
+                    if not (len(copy_side) == 1 and isinstance(copy_side[0], ast.Assign) and len(copy_side[0].targets) == 1 and isinstance(copy_side[0].targets[0], ast.Name)
+                            and isinstance(copy_side[0].value, ast.Name)):
+                        continue
+                    v, p_ = copy_side[0].targets[0].id, copy_side[0].value.id
+                    if v == p_ or v in params:
+                        continue
+                    # v is defined on the other side too, by top-level assignments of that branch only
+                    if not (len(other) == 1 and isinstance(other[0], ast.Assign) and len(other[0].targets) == 1 and isinstance(other[0].targets[0], ast.Name) and other[0].targets[0].id == v):
+                        continue
+                    names_before = {n.id for t in stmts[:j] for n in ast.walk(t) if isinstance(n, ast.Name)} | {n.id for n in ast.walk(s.test) if isinstance(n, ast.Name) and n.id == v}
+                    if v in names_before:
+                        continue
+                    after = [n for t in stmts[j + 1:] for n in ast.walk(t) if isinstance(n, ast.Name)]
+                    if any(n.id == p_ for n in after):
+                        continue   # p is still read afterwards: the two names are different things
+                    stores_v = [n for n in ast.walk(fn) if isinstance(n, ast.Name) and n.id == v and isinstance(n.ctx, ast.Store)]
+                    if len(stores_v) != 2:
+                        continue
+                    for n in ast.walk(fn):
+                        if isinstance(n, ast.Name) and n.id == v:
+                            n.id = p_
+                    # `p = p` on the copy side disappears
+                    if copy_side is s.body:
+                        s.test = ast.UnaryOp(op=ast.Not(), operand=s.test)
+                        s.body, s.orelse = s.orelse, []
+                    else:
+                        s.orelse = []
+                    changed = True
+                    break
+                if changed:
+                    break
+            if changed:
+                break
+
+
 def _drop_tail_returns(fn):
     """A bare `return` that ends the function is the implicit one; `if c: pass else: X` is `if not c: X`."""
     def tail(stmts):
@@ -1487,6 +1556,8 @@ def normal_form(fn, signatures: Optional[Dict[str, List[str]]] = None, helpers: 
         _inline_temps(g)
         _split_tuple_assign(g)
         _coalesce_copies(g)
+        _coalesce_branch_copies(g)
+        _hoist_common_tail_return(g)
         _propagate_pure(g)
         _drop_tail_returns(g)
         _strip(g)
